@@ -14,6 +14,7 @@
 //	mq fake <b1,b2,..> | mq real         how transactions are batched into messages (fake: scripted, cyclic)
 //	req <id> key=<n|-|bad> ign=<list|e|-|bad> skip=<int|-|bad> hook=<ok|reject|err|pause> stop=<none|hookpause:k|sigpause:k|cancel:k>
 //	resume <id>
+//	rcancel <id>                         the requestor cancels the paused request <id>; a later `req <id>` reuses the request id
 //
 // dag/lt/store/mq print one line, req/resume print three lines:
 //
@@ -291,6 +292,7 @@ type reqState struct {
 	stray    int
 	started  bool
 	done     bool // terminal status observed
+	gone     bool // cancelled by the requestor while paused (no status on the wire)
 	overlap  bool // another request of the same dedup scope was in progress during its life
 	judged   bool
 }
@@ -663,7 +665,19 @@ func (w *world) settle(rs *reqState, from int) bool {
 				}
 				st := resp.Status()
 				if (wantTerminal && st.IsTerminal()) || (!wantTerminal && st == graphsync.RequestPaused) {
-					// everything queued before it has been sent as well (one queue, in order)
+					// everything queued before it has been sent as well (one queue, in order).
+					// After a terminal status the queue's Sent notification retires the request
+					// (TerminateRequest) asynchronously; wait for that too, or it would retire a later
+					// request that reuses the id.
+					for wantTerminal {
+						if _, ok := w.rm.PeerState(w.p).RequestStates[rs.gsid]; !ok {
+							break
+						}
+						if time.Now().After(deadline) {
+							return false
+						}
+						time.Sleep(30 * time.Microsecond)
+					}
 					return true
 				}
 			}
@@ -840,7 +854,7 @@ func sameScope(a, b reqSpec) bool {
 // markOverlap: the request becoming active now shares its dedup scope with a request in progress.
 func (w *world) markOverlap(rs *reqState) {
 	for _, o := range w.reqs {
-		if o != rs && o.started && !o.done && sameScope(o.spec, rs.spec) {
+		if o != rs && o.started && !o.done && !o.gone && sameScope(o.spec, rs.spec) {
 			o.overlap = true
 			rs.overlap = true
 		}
@@ -859,14 +873,21 @@ func (w *world) doReq(t []string) {
 		w.bad3()
 		return
 	}
-	if _, dup := w.reqs[spec.id]; dup {
-		w.bad3()
-		return
+	gsid := graphsync.NewRequestID()
+	if prev, dup := w.reqs[spec.id]; dup {
+		// the same request id again (what a requestor-side pause / resume does): only once the
+		// previous response under that id has ended
+		if !prev.done && !prev.gone {
+			w.bad3()
+			return
+		}
+		gsid = prev.gsid
+		w.out.Cov("op:req-same-id")
 	}
 	if w.rm == nil {
 		w.setup()
 	}
-	rs := &reqState{spec: spec, gsid: graphsync.NewRequestID()}
+	rs := &reqState{spec: spec, gsid: gsid}
 	w.mu.Lock()
 	w.reqs[spec.id] = rs
 	w.byID[rs.gsid] = rs
@@ -928,6 +949,58 @@ func (w *world) doResume(t []string) {
 	}
 	w.report(rs, w.view(rs, w.rec.since(from)))
 	w.judge(rs)
+}
+
+// doRcancel: the requestor cancels a paused request (a cancel request on the wire).
+func (w *world) doRcancel(t []string) {
+	if len(t) < 2 || w.rm == nil {
+		w.bad3()
+		return
+	}
+	id, err := strconv.Atoi(t[1])
+	rs := w.reqs[id]
+	if err != nil || rs == nil {
+		w.bad3()
+		return
+	}
+	w.mu.Lock()
+	w.cur = rs
+	w.mu.Unlock()
+	from := w.rec.len()
+	st := w.rm.PeerState(w.p)
+	if s, ok := st.RequestStates[rs.gsid]; !ok || s != graphsync.Paused || rs.done || rs.gone {
+		w.report(rs, nil) // nothing to cancel
+		return
+	}
+	w.out.Cov("op:rcancel")
+	m, cerr := roundTrip(w.p, gsmsg.NewMessage(map[graphsync.RequestID]gsmsg.GraphSyncRequest{rs.gsid: gsmsg.NewCancelRequest(rs.gsid)}, nil, nil))
+	if cerr != nil {
+		w.out.Line("codec-error %v", cerr)
+		w.out.Line("-")
+		w.out.Line("-")
+		return
+	}
+	w.rm.ProcessRequests(w.ctx, w.p, m.Requests())
+	deadline := time.Now().Add(20 * time.Second)
+	for {
+		st := w.rm.PeerState(w.p)
+		if _, ok := st.RequestStates[rs.gsid]; !ok {
+			break
+		}
+		if time.Now().After(deadline) {
+			w.out.Line("timeout")
+			w.out.Line("-")
+			w.out.Line("-")
+			w.out.Fail("harness-timeout", "rcancel %d did not settle", id)
+			return
+		}
+		time.Sleep(30 * time.Microsecond)
+	}
+	if w.fake != nil {
+		w.fake.flush()
+	}
+	rs.gone = true
+	w.report(rs, w.view(rs, w.rec.since(from)))
 }
 
 func (w *world) cov(s reqSpec) {
@@ -1197,6 +1270,8 @@ func runCase(c reg.Case, out *reg.Out) {
 			w.doReq(t)
 		case "resume":
 			w.doResume(t)
+		case "rcancel":
+			w.doRcancel(t)
 		default:
 			out.Line("bad-op")
 		}
@@ -1354,7 +1429,7 @@ func genCase(r *rand.Rand, w *bufio.Writer, id string, tier string) {
 				fmt.Fprintf(w, "resume 1\n")
 			}
 		}
-	case x < 17: // a prior request of the same peer still in progress (paused), then the request, then the prior resumes
+	case x < 16: // a prior request of the same peer still in progress (paused), then the request, then the prior resumes
 		p := genExt(r, nb, nloads, 1)
 		p.hook = "ok"
 		switch r.Intn(3) {
@@ -1388,6 +1463,36 @@ func genCase(r *rand.Rand, w *bufio.Writer, id string, tier string) {
 			t.keyMode, t.key = s.keyMode, s.key
 			fmt.Fprintln(w, t.String())
 		}
+	case x < 19: // the SAME request id served twice (requestor-side pause / resume): finished or cancelled mid-way, then again with a skip count
+		p := genExt(r, nb, nloads, 1)
+		p.hook = "ok"
+		if r.Intn(2) == 0 {
+			p.keyMode = extAbsent
+		}
+		k := 1 + r.Intn(nloads)
+		midway := r.Intn(3) != 0
+		if midway {
+			if r.Intn(2) == 0 {
+				p.stopKind, p.stopK = "sigpause", k
+			} else {
+				p.stopKind, p.stopK = "hookpause", k
+			}
+		}
+		fmt.Fprintln(w, p.String())
+		if midway {
+			fmt.Fprintf(w, "rcancel 1\n")
+		}
+		s := genExt(r, nb, nloads, 1)
+		s.hook = "ok"
+		s.keyMode, s.key = p.keyMode, p.key
+		if s.keyMode == extBad {
+			s.keyMode = extAbsent
+		}
+		s.skipMode, s.skip = extOK, int64(pick(r, k, k, k, 1, 2, nloads))
+		if r.Intn(2) == 0 {
+			s.ignMode = extAbsent
+		}
+		fmt.Fprintln(w, s.String())
 	default: // a finished prior request, then the request (same scope: blocks are sent again)
 		p := genExt(r, nb, nloads, 1)
 		fmt.Fprintln(w, p.String())
